@@ -34,6 +34,13 @@ CHECKS = {
         "design_ref": "DESIGN.md section 4, C15",
         "note": "trusted: CrossHair's int/str model, z3, the consistent index->(line,column) map for hull equality; rejection messages render integers, so those two obligations are range-bounded",
     },
+    "C13": {
+        "engine": "CrossHair (engine X) + symx (engine P)",
+        "technique": "CrossHair symbolic execution (z3) of the real is_instance with a symbolic value per annotation against an independently written conformance relation; symx exploration of pool values and whole constructions with config.RUNTIME_TYPE_CHECK as a lazy symbolic boolean",
+        "text": "For each of 48 (quick) / 62 (thorough) annotations, is_instance(v, T) == conforms(v, T) is 'Confirmed over all paths' for ALL values v of int|bool|float|str|None and tuples of them (length <= 3; nested 2x2), with reachability twins; pool pairs with nodes/enums/lists/paths and constructions with one or two deviating fields give exactly the non-conforming invalid_fields, and the switch-off node equals the switch-on node.",
+        "design_ref": "DESIGN.md section 4, C13",
+        "note": "trusted: CrossHair's value models, z3, oracles/typing_conf.py (skips pairs on which the statement is silent: bool offered to float, Literal membership across types)",
+    },
 }
 NOT_APPLICABLE = {
     "C11": "input is a class definition consumed by typing/abc introspection (get_origin/get_args/get_type_hints/issubclass): no engine can keep an annotation symbolic, every path would be one concrete class definition, i.e. enumeration of concrete runs rather than a solver verdict (DESIGN.md section 5)",
